@@ -58,7 +58,9 @@ def run_one(sid):
 
 
 def main():
-    ids = sys.argv[1:] or sorted(x for x in os.listdir(SEEDED) if os.path.isdir(os.path.join(SEEDED, x)))
+    report_only = "--report-only" in sys.argv
+    args = [a for a in sys.argv[1:] if not a.startswith("--")]
+    ids = [] if report_only else (args or sorted(x for x in os.listdir(SEEDED) if os.path.isdir(os.path.join(SEEDED, x))))
     rows = []
     for sid in ids:
         r = run_one(sid)
@@ -83,6 +85,11 @@ def main():
         lines.append(f"| {r['id']} | {r['property']} | {need} | {'yes' if r.get('detected') else ('PATCH DOES NOT APPLY' if not r.get('applies') else 'NO')} | {'+'.join(r.get('how', []))} | {(r.get('violations') or [''])[0][:110]} |")
     with open(os.path.join(SEEDED, "REPORT.md"), "w") as fh:
         fh.write("\n".join(lines) + "\n")
+    n_det = sum(1 for r in allrows if r.get("detected"))
+    n_rep = sum(1 for r in allrows if "replay" in (r.get("how") or []))
+    print(f"{len(allrows)} seeded changes, {n_det} detected, {n_rep} with a concrete replay")
+    if report_only:
+        return
     # restore the generated files for /repo
     subprocess.run([os.path.join(VERIF, "check"), "C01", "--tier", "quick"], cwd=VERIF, capture_output=True, text=True)
 
